@@ -26,6 +26,7 @@ import (
 	"io"
 	"strings"
 	"sync"
+	"time"
 
 	sqlite3 "github.com/mattn/go-sqlite3"
 )
@@ -211,6 +212,9 @@ func (c *conn) Prepare(query string) (driver.Stmt, error) {
 
 func (c *conn) PrepareContext(ctx context.Context, query string) (driver.Stmt, error) {
 	if err := c.inj.point('p', "prepare", query); err != nil {
+		// a failing prepare is also a slow one, slower than the store's slow-query threshold
+		// (persist/sqlite/sql.go longQueryDuration = 10ms): the slow path and the error path are taken together
+		time.Sleep(12 * time.Millisecond)
 		return nil, err
 	}
 	s, err := c.c.PrepareContext(ctx, query)
